@@ -15,6 +15,7 @@ def lists_differ(a, b):
 def check(R, tier):
     R.fallback_kinds = {'rollback'}
     I = R.interp('tough'); install_world(I)
+    cycle_composition(R, I)
     RT = variants('RoleType'); TS, SN = RT.index('Timestamp'), RT.index('Snapshot')
     R.bounds.update({'key list lengths (timestamp, snapshot)': '1 and 2 on either side of the rotation', 'root hops': '1 (all key-list shapes) and 2 (lists of length 1; thorough: also a list extended at the first hop)', 'stored versions': 'any u64 (up to 2^64-1)',
                      'history': 'cycle 1 trusts the shipped root; cycle 2 sees one newer root'})
@@ -80,6 +81,7 @@ def check(R, tier):
             base + [rotated, Ver(a.ts) == 2 ** 63, Ver(b.ts) == 1, b.ok])
     R.reach('2 cycles: no rotation and a lower timestamp version is rejected (protection kept)', base + [z3.Not(rotated), Thr(a.root, IDV(TS)) == Thr(b.root, IDV(TS)), b.older_ts])
     finalize(R, sums)
+    replay_composition(R)
 
 MENU = [([1], [1]), ([1], [2]), ([1], [1, 2]), ([1, 2], [1]), ([1, 2], [2, 1]), ([1, 2], [1, 3]), ([1, 2], [1, 2]), ([1], [2, 1])]
 def finalize(R, sums):
@@ -122,6 +124,7 @@ def finalize(R, sums):
     unrepro = []
     for cx in R.counterexamples:
         sc = cx.get('scenario')
+        if cx['group'].startswith('composition/'): continue
         if cx['group'].endswith('/2-hops'):
             if not reported: unrepro.append(cx)
         elif cx['group'] in ('rotation-deletes', 'no-rotation-keeps') and sc:
